@@ -6,6 +6,7 @@ import (
 	"encoding/json"
 	"fmt"
 	"os"
+	"reflect"
 	"regexp"
 	"sort"
 	"strings"
@@ -14,6 +15,7 @@ import (
 	"github.com/llir/llvm/ir"
 	"github.com/llir/llvm/ir/enum"
 	"github.com/llir/llvm/ir/metadata"
+	"github.com/llir/llvm/ir/types"
 )
 
 func init() { props["C18"] = runC18 }
@@ -131,7 +133,89 @@ var c18Templates = map[string]string{
 	"ReturnAttr":      "declare %s i8* @f()\n",
 	"SelectionKind":   "$c = comdat %s\n",
 	"TLSModel":        "@g = thread_local(%s) global i32 0\n",
-	"ClauseType":      "",
+	"ClauseType":      "declare i32 @pers(...)\ndeclare void @g()\ndefine void @f() personality i32 (...)* @pers {\n\tinvoke void @g() to label %%a unwind label %%b\na:\n\tret void\nb:\n\t%%l = landingpad { i8*, i32 } %s CLAUSEARG\n\tresume { i8*, i32 } %%l\n}\n",
+	"SanitizerKind":   "@g = global i32 0, %s\n",
+	// families printed by helpers and by the debug-info printers
+	"UnwindTableKind":  "declare void @f() uwtable(%s)\n",
+	"FloatKind":        "@g = external global %s\n",
+	"DwarfTag":         "!0 = !DIDerivedType(tag: %s, baseType: null)\n",
+	"DwarfLang":        "!0 = !DIFile(filename: \"a\", directory: \"b\")\n!1 = distinct !DICompileUnit(language: %s, file: !0)\n",
+	"DwarfAttEncoding": "!0 = !DIBasicType(name: \"x\", size: 32, encoding: %s)\n",
+	"DwarfOp":          "!0 = !DIExpression(%s)\n",
+	"DwarfCC":          "!0 = !DISubroutineType(cc: %s, types: null)\n",
+	"DwarfMacinfo":     "!0 = !DIMacro(type: %s, name: \"x\")\n",
+	"DwarfVirtuality":  "!0 = distinct !DISubprogram(name: \"f\", virtuality: %s)\n",
+	"EmissionKind":     "!0 = !DIFile(filename: \"a\", directory: \"b\")\n!1 = distinct !DICompileUnit(language: DW_LANG_C99, file: !0, emissionKind: %s)\n",
+	"NameTableKind":    "!0 = !DIFile(filename: \"a\", directory: \"b\")\n!1 = distinct !DICompileUnit(language: DW_LANG_C99, file: !0, nameTableKind: %s)\n",
+	"ChecksumKind":     "!0 = !DIFile(filename: \"a\", directory: \"b\", checksumkind: %s, checksum: \"00\")\n",
+}
+
+// the Go type of each family, for the value-level comparison (every value of that type reachable from the module)
+var c18Types = map[string]reflect.Type{
+	"Linkage": reflect.TypeOf(enum.Linkage(0)), "Visibility": reflect.TypeOf(enum.Visibility(0)),
+	"Preemption": reflect.TypeOf(enum.Preemption(0)), "DLLStorageClass": reflect.TypeOf(enum.DLLStorageClass(0)),
+	"UnnamedAddr": reflect.TypeOf(enum.UnnamedAddr(0)), "CallingConv": reflect.TypeOf(enum.CallingConv(0)),
+	"IPred": reflect.TypeOf(enum.IPred(0)), "FPred": reflect.TypeOf(enum.FPred(0)),
+	"AtomicOp": reflect.TypeOf(enum.AtomicOp(0)), "AtomicOrdering": reflect.TypeOf(enum.AtomicOrdering(0)),
+	"FastMathFlag": reflect.TypeOf(enum.FastMathFlag(0)), "OverflowFlag": reflect.TypeOf(enum.OverflowFlag(0)),
+	"Tail": reflect.TypeOf(enum.Tail(0)), "FuncAttr": reflect.TypeOf(enum.FuncAttr(0)),
+	"ParamAttr": reflect.TypeOf(enum.ParamAttr(0)), "ReturnAttr": reflect.TypeOf(enum.ReturnAttr(0)),
+	"SelectionKind": reflect.TypeOf(enum.SelectionKind(0)), "TLSModel": reflect.TypeOf(enum.TLSModel(0)),
+	"UnwindTableKind": reflect.TypeOf(enum.UnwindTableKind(0)), "FloatKind": reflect.TypeOf(types.FloatKind(0)),
+	"DwarfTag": reflect.TypeOf(enum.DwarfTag(0)), "DwarfLang": reflect.TypeOf(enum.DwarfLang(0)),
+	"DwarfAttEncoding": reflect.TypeOf(enum.DwarfAttEncoding(0)), "DwarfOp": reflect.TypeOf(enum.DwarfOp(0)),
+	"DwarfCC": reflect.TypeOf(enum.DwarfCC(0)), "DwarfMacinfo": reflect.TypeOf(enum.DwarfMacinfo(0)),
+	"DwarfVirtuality": reflect.TypeOf(enum.DwarfVirtuality(0)), "EmissionKind": reflect.TypeOf(enum.EmissionKind(0)),
+	"ClauseType": reflect.TypeOf(enum.ClauseType(0)), "SanitizerKind": reflect.TypeOf(enum.SanitizerKind(0)),
+	"NameTableKind": reflect.TypeOf(enum.NameTableKind(0)), "ChecksumKind": reflect.TypeOf(enum.ChecksumKind(0)),
+}
+
+// c18Collect returns, sorted, every value of the enumerated type t reachable from x
+func c18Collect(x interface{}, t reflect.Type) []int64 {
+	var out []int64
+	seen := map[uintptr]bool{}
+	var walk func(v reflect.Value, depth int)
+	walk = func(v reflect.Value, depth int) {
+		if depth > 60 || !v.IsValid() {
+			return
+		}
+		if v.Type() == t {
+			switch v.Kind() {
+			case reflect.Int, reflect.Int8, reflect.Int16, reflect.Int32, reflect.Int64:
+				out = append(out, v.Int())
+			case reflect.Uint, reflect.Uint8, reflect.Uint16, reflect.Uint32, reflect.Uint64:
+				out = append(out, int64(v.Uint()))
+			}
+			return
+		}
+		switch v.Kind() {
+		case reflect.Ptr:
+			if v.IsNil() || seen[v.Pointer()] {
+				return
+			}
+			seen[v.Pointer()] = true
+			walk(v.Elem(), depth+1)
+		case reflect.Interface:
+			if !v.IsNil() {
+				walk(v.Elem(), depth+1)
+			}
+		case reflect.Struct:
+			for i := 0; i < v.NumField(); i++ {
+				walk(v.Field(i), depth+1)
+			}
+		case reflect.Slice, reflect.Array:
+			for i := 0; i < v.Len(); i++ {
+				walk(v.Index(i), depth+1)
+			}
+		case reflect.Map:
+			for _, k := range v.MapKeys() {
+				walk(v.MapIndex(k), depth+1)
+			}
+		}
+	}
+	walk(reflect.ValueOf(x), 0)
+	sort.Slice(out, func(i, j int) bool { return out[i] < out[j] })
+	return out
 }
 
 func c18Modules(c *config, vals map[string][]int64) {
@@ -149,8 +233,8 @@ func c18Modules(c *config, vals map[string][]int64) {
 		}
 		for _, v := range vals[fam] {
 			kw := f.str(v)
-			if kw == "" || kw == "none" && fam != "Linkage" && fam != "UnnamedAddr" || v == 0 && (fam != "AtomicOrdering") {
-				continue // the zero value stands for the absent keyword
+			if kw == "" || kw == "none" {
+				continue // stands for the absent keyword
 			}
 			if fam == "AtomicOrdering" && (kw == "not_atomic" || kw == "unordered" || kw == "monotonic") {
 				continue // not valid orderings of a fence
@@ -165,6 +249,13 @@ func c18Modules(c *config, vals map[string][]int64) {
 			if fam == "Linkage" && (kw == "external" || kw == "extern_weak") {
 				src = fmt.Sprintf("@g = %s global i32\n", kw) // declarations carry no initialiser
 			}
+			if fam == "ClauseType" {
+				if kw == "filter" {
+					src = strings.Replace(src, "CLAUSEARG", "[0 x i8*] zeroinitializer", 1)
+				} else {
+					src = strings.Replace(src, "CLAUSEARG", "i8* null", 1)
+				}
+			}
 			if fam == "AtomicOp" {
 				if strings.HasPrefix(kw, "f") {
 					src = strings.Replace(src, "ATOMICPTR", "float* %q, float 1.0", 1)
@@ -173,6 +264,7 @@ func c18Modules(c *config, vals map[string][]int64) {
 				}
 			}
 			var text, text2 string
+			var vals1, vals2 []int64
 			oc, msg := guard(func() error {
 				m, err := asm.ParseString("c18.ll", src)
 				if err != nil {
@@ -184,14 +276,35 @@ func c18Modules(c *config, vals map[string][]int64) {
 					return fmt.Errorf("printed text does not re-parse: %v", err)
 				}
 				text2 = m2.String()
+				if t, ok := c18Types[fam]; ok {
+					vals1, vals2 = c18Collect(m, t), c18Collect(m2, t)
+				}
 				return nil
 			})
+			// (a bare uwtable is held as ir.UnwindTable, not as a member of enum.FuncAttr)
+			if _, ok := c18Types[fam]; ok && oc == ocOk && !(fam == "FuncAttr" && kw == "uwtable") {
+				has := false
+				for _, x := range vals1 {
+					if x == v {
+						has = true
+					}
+				}
+				detv := map[string]interface{}{"family": fam, "keyword": kw, "value": v, "src": src, "printed": text, "values_parsed": vals1, "values_reparsed": vals2}
+				switch {
+				case !has:
+					o.Fail("value_through_module", c18Class(fam, kw), "the keyword is not read as its value", detv)
+				case fmt.Sprint(vals1) != fmt.Sprint(vals2):
+					o.Fail("value_through_module", c18Class(fam, kw), "the values of the family change through print and parse", detv)
+				default:
+					o.Pass("value_through_module")
+				}
+			}
 			o.Stat("module_keywords." + fam)
 			det := map[string]interface{}{"family": fam, "keyword": kw, "value": v, "src": src, "printed": text, "msg": msg}
 			switch {
 			case oc != ocOk:
 				o.Fail("keyword_through_module", c18Class(fam, kw), oc.String(), det)
-			case !strings.Contains(text, kw):
+			case !strings.Contains(text, kw) && v != 0: // (a zero value may be the default the printer leaves out)
 				o.Fail("keyword_through_module", c18Class(fam, kw), "keyword missing from the printed module", det)
 			case text != text2:
 				o.Fail("keyword_through_module", c18Class(fam, kw), "second print differs", det)
